@@ -114,9 +114,9 @@ func copyTree(src, dst string) {
 // dedup key material and is drawn from small domains so duplicates occur.
 type RowSpec struct {
 	Rid  int64 `json:"rid"`
-	T    int64 `json:"t"`              // µs offset from the partition start (C09) / absolute shape offset (C11)
-	Host int   `json:"host"`           // tag value selector; -1 = NULL
-	Reg  int   `json:"reg"`            // second tag selector; -1 = NULL
+	T    int64 `json:"t"`               // µs offset from the partition start (C09) / absolute shape offset (C11)
+	Host int   `json:"host"`            // tag value selector; -1 = NULL
+	Reg  int   `json:"reg"`             // second tag selector; -1 = NULL
 	NulS bool  `json:"nul_s,omitempty"` // string field NULL
 }
 
